@@ -28,8 +28,8 @@ import GqlProofs.Lexer.UniLex
                                    tokens up to the end or the first error (hypothesis `BlocksOK`: no
                                    block string is closed by a run of more than three quotes).
 
-   * `C03_lex_utf8`             — EVERY well-formed UTF-8 source (`Utf8.decode inp = some cps`, an
-                                   independent strict decoder): `lexAll inp` and `Spec.lex cps` produce the
+   * `C03_lex_utf8`             — EVERY well-formed UTF-8 source (`Utf8.decode inp = some cps`, a strict
+                                   decoder characterised by `C03_utf8_decode_iff`): `lexAll inp` and `Spec.lex cps` produce the
                                    same tokens (kinds, values through UTF-8, extents in code points) up to
                                    the end or the first error, under `BlocksOK` on the decoded text;
                                    `C03_lex_scalars` is the same for `utf8Encode cps`, `C03_step_utf8` /
@@ -421,7 +421,7 @@ example : (match Spec.lex (str "{ a }") with | .ok ts => ts.length | _ => 0) = 3
 
   The model works on BYTES (`utf8Encode cps`), the specification on the CODE POINTS `cps`; a
   well-formed UTF-8 source is the encoding of exactly one list of Unicode scalar values
-  (`Utf8.decode`, an independent strict decoder: `Utf8.decode_sound`, `Utf8.decode_encode`). -/
+  (`Utf8.decode`, a strict decoder: `Utf8.decode_sound`, `Utf8.decode_encode`, `C03_utf8_decode_iff`). -/
 
 /-- the strict decoder and `utf8Encode` are inverse: `Utf8.decode inp = some cps` iff `cps` is a list
     of Unicode scalar values whose UTF-8 encoding is `inp` -/
